@@ -311,3 +311,362 @@ Proof.
       exists (stream (encode_head (prep0 r))), (trailer_block (fst (run_prog (op_flush (encode_head (prep0 r))) body (acc ++ [])))).
       repeat split; auto. rewrite F, S2, S1. cbn [chunks]. unfold CRLF0. now rewrite <- !app_assoc.
 Qed.
+
+(* ================= identity framing ================= *)
+(* effective declared length: what Write compares the body against *)
+Definition ecl (r : resp) : N :=
+  if 0 <? contentLen r then contentLen r else match h_cl r with Some n => n | None => 0 end.
+
+(* the two phases of the identity path of Write, cut out of op_write *)
+Definition head_phase (r1 : resp) (l : N) : resp :=
+  let r := encode_head r1 in
+  match buffer r with
+  | None => r
+  | Some h => if len h + l <? MAXP then set_bufs r None (Some h) else set_bufs (upd_out r h) None (bodybuf r)
+  end.
+
+Definition append_phase (cl : N) (r2 : resp) (d : list N) : resp * wres :=
+  let l := len d in
+  match bodybuf r2 with
+  | None =>
+      if (0 <? cl) && (MAXP <=? l)
+      then (set_written (upd_out r2 d) (contentLen r2) (bodyWritten r2 + l), WOk l)
+      else
+        let r3 := set_written (set_bufs r2 (buffer r2) (Some d)) (contentLen r2) (bodyWritten r2 + l) in
+        if (0 <? cl) && (MAXP <=? l)
+        then (set_bufs (upd_out r3 d) (buffer r3) (Some []), WOk l)
+        else (r3, WOk l)
+  | Some bb =>
+      if (0 <? cl) && (MAXP <? len bb + l) then
+        let r3 := if 0 <? len bb then set_bufs (upd_out r2 bb) (buffer r2) (Some []) else r2 in
+        if MAXP <=? l
+        then (set_written (set_bufs (upd_out r3 d) (buffer r3) None) (contentLen r3) (bodyWritten r3 + l), WOk l)
+        else
+          let r4 := set_written (set_bufs r3 (buffer r3) (Some d)) (contentLen r3) (bodyWritten r3 + l) in
+          (r4, WOk l)
+      else
+        let nb := bb ++ d in
+        let r3 := set_written (set_bufs r2 (buffer r2) (Some nb)) (contentLen r2) (bodyWritten r2 + l) in
+        if (0 <? cl) && (MAXP <=? len nb)
+        then (set_bufs (upd_out r3 nb) (buffer r3) (Some []), WOk l)
+        else (r3, WOk l)
+  end.
+
+Lemma op_write_identity r c d' : settled r -> chunked r = false ->
+  let d := c :: d' in
+  let r1 := set_written (set_hasbody r) (ecl r) (bodyWritten r) in
+  op_write r d =
+    if (0 <? ecl r) && (ecl r <? bodyWritten r + len d) then (r1, WErrContentLength)
+    else append_phase (ecl r) (if 0 <? ecl r then head_phase r1 (len d) else r1) d.
+Proof.
+  intros Hs Hc. cbv zeta. unfold op_write. fold (prep0 r). rewrite (prep0_settled r Hs). cbv zeta.
+  cbn [set_hasbody chunked contentLen h_cl bodyWritten]. rewrite Hc. fold (ecl r).
+  assert (E : (if 0 <? contentLen r then contentLen r else ecl r) = ecl r).
+  { unfold ecl. destruct (0 <? contentLen r); reflexivity. }
+  rewrite E. cbn [set_written bodyWritten]. reflexivity.
+Qed.
+
+Definition nob (r : resp) : Prop := ob (buffer r) = [].      (* no pending head bytes *)
+
+Lemma len_zero_nil (b : list N) : (0 <? len b) = false -> b = [].
+Proof. unfold len. destruct b; auto. cbn [length]. intros H. apply N.ltb_ge in H. lia. Qed.
+
+Lemma append_phase_stream cl r2 d : (0 < cl -> nob r2) ->
+  let r' := fst (append_phase cl r2 d) in
+  stream r' = stream r2 ++ d /\ buffer r' = buffer r2 /\ headEncoded r' = headEncoded r2 /\ chunked r' = chunked r2
+  /\ chunkChecked r' = chunkChecked r2 /\ code r' = code r2 /\ contentLen r' = contentLen r2 /\ h_cl r' = h_cl r2
+  /\ bodyWritten r' = bodyWritten r2 + len d.
+Proof.
+  intros Hn. unfold append_phase, stream, nob in *. cbv zeta.
+  destruct (N.ltb_spec 0 cl) as [Hcl|Hcl]; cbn [andb].
+  - specialize (Hn Hcl).
+    destruct (bodybuf r2) as [bb|] eqn:Eb.
+    + destruct (MAXP <? len bb + len d).
+      * destruct (0 <? len bb) eqn:Ebb.
+        -- destruct (MAXP <=? len d);
+             cbn [fst set_written set_bufs upd_out out buffer bodybuf headEncoded chunked chunkChecked code contentLen h_cl bodyWritten];
+             rewrite ?concat_snoc, ?Hn; cbn [ob app]; rewrite ?app_nil_r; repeat split; auto; now rewrite <- ?app_assoc.
+        -- apply len_zero_nil in Ebb. subst bb.
+           destruct (MAXP <=? len d);
+             cbn [fst set_written set_bufs upd_out out buffer bodybuf headEncoded chunked chunkChecked code contentLen h_cl bodyWritten];
+             rewrite ?concat_snoc, ?Eb, ?Hn; cbn [ob app]; rewrite ?app_nil_r; repeat split; auto; now rewrite <- ?app_assoc.
+      * destruct (MAXP <=? len (bb ++ d));
+          cbn [fst set_written set_bufs upd_out out buffer bodybuf headEncoded chunked chunkChecked code contentLen h_cl bodyWritten];
+          rewrite ?concat_snoc, ?Hn; cbn [ob app]; rewrite ?app_nil_r; repeat split; auto; now rewrite <- ?app_assoc.
+    + destruct (MAXP <=? len d);
+        cbn [fst set_written set_bufs upd_out out buffer bodybuf headEncoded chunked chunkChecked code contentLen h_cl bodyWritten];
+        rewrite ?concat_snoc, ?Hn; cbn [ob app]; rewrite ?app_nil_r; repeat split; auto; now rewrite <- ?app_assoc.
+  - destruct (bodybuf r2) as [bb|] eqn:Eb;
+      cbn [fst set_written set_bufs upd_out out buffer bodybuf headEncoded chunked chunkChecked code contentLen h_cl bodyWritten];
+      cbn [ob app]; rewrite ?app_nil_r; repeat split; auto; now rewrite <- ?app_assoc.
+Qed.
+
+Lemma head_phase_stream r1 l : (headEncoded r1 = false -> buffer r1 = None) -> (buffer (encode_head r1) <> None -> ob (bodybuf r1) = []) ->
+  let r' := head_phase r1 l in
+  stream r' = stream (encode_head r1) /\ buffer r' = None /\ headEncoded r' = true /\ chunked r' = chunked r1
+  /\ chunkChecked r' = chunkChecked r1 /\ code r' = code r1 /\ contentLen r' = contentLen r1 /\ h_cl r' = h_cl r1
+  /\ bodyWritten r' = bodyWritten r1.
+Proof.
+  intros Hb Hq. unfold head_phase. cbv zeta.
+  destruct (eh_fields r1) as (F1 & F2 & F3 & F4 & F5 & F6 & F7 & F8 & F9 & _).
+  destruct (buffer (encode_head r1)) as [h|] eqn:Eb.
+  - assert (Hbb : ob (bodybuf (encode_head r1)) = []) by (rewrite F2; apply Hq; discriminate).
+    destruct (len h + l <? MAXP);
+      unfold stream; cbn [set_bufs upd_out out buffer bodybuf headEncoded chunked chunkChecked code contentLen h_cl bodyWritten];
+      rewrite ?concat_snoc, ?Eb, ?Hbb; cbn [ob app]; rewrite ?app_nil_r; repeat split; auto; now rewrite <- ?app_assoc.
+  - repeat split; auto.
+Qed.
+
+Definition is_wf_op (o : hop) : bool := match o with HWrite _ | HFlush => true | _ => false end.
+
+Fixpoint body_data (body : list hop) : list N :=
+  match body with
+  | [] => []
+  | HWrite d :: t => d ++ body_data t
+  | _ :: t => body_data t
+  end.
+
+(* no Write of the program is refused (the declared Content-Length, if any, is not exceeded) *)
+Fixpoint ok_run (r : resp) (body : list hop) : Prop :=
+  match body with
+  | [] => True
+  | o :: t => ~ In WErrContentLength (snd (run_op r o)) /\ ok_run (fst (run_op r o)) t
+  end.
+
+(* identity framing, framing settled, declared length CL (0 = none) *)
+Definition Unstarted (r : resp) : Prop := headEncoded r = false /\ out r = [] /\ buffer r = None.
+
+Definition IdInv (CL : N) (r : resp) : Prop :=
+  settled r /\ chunked r = false /\ ecl r = CL /\
+  (headEncoded r = false -> Unstarted r /\ (0 < CL -> bodybuf r = None)) /\
+  (0 < CL -> headEncoded r = true -> buffer r = None \/ ob (bodybuf r) = []).
+
+Lemma ecl_set r cl bw : 0 < cl \/ (cl = 0 /\ ecl r = 0) -> ecl (set_written (set_hasbody r) cl bw) = (if 0 <? cl then cl else ecl r).
+Proof.
+  unfold ecl. cbn [set_written set_hasbody contentLen h_cl]. intros [H|[-> H]].
+  - destruct (N.ltb_spec 0 cl); [reflexivity|lia].
+  - cbn. unfold ecl in H. destruct (0 <? contentLen r) eqn:E; [apply N.ltb_lt in E; lia|exact H].
+Qed.
+
+Lemma id_write CL r c d' : IdInv CL r -> ~ In WErrContentLength (snd (run_op r (HWrite (c :: d')))) ->
+  let d := c :: d' in
+  let r' := fst (op_write r d) in
+  IdInv CL r' /\
+  ((headEncoded r = true \/ CL = 0) -> stream r' = stream r ++ d) /\
+  (headEncoded r = false -> 0 < CL -> exists H, stream r' = H ++ d) /\
+  headEncoded r' = (if 0 <? CL then true else headEncoded r).
+Proof.
+  intros (Hs & Hc & He & Hu & Hk) Hok. cbv zeta.
+  pose proof (op_write_identity r c d' Hs Hc) as W. cbv zeta in W.
+  cbn [run_op] in Hok. rewrite W in *. rewrite He in *.
+  set (r1 := set_written (set_hasbody r) CL (bodyWritten r)) in *.
+  destruct ((0 <? CL) && (CL <? bodyWritten r + len (c :: d'))) eqn:Eref.
+  { exfalso. apply Hok. cbn. auto. }
+  assert (F1 : out r1 = out r /\ buffer r1 = buffer r /\ bodybuf r1 = bodybuf r /\ headEncoded r1 = headEncoded r
+               /\ chunked r1 = chunked r /\ chunkChecked r1 = chunkChecked r /\ code r1 = code r /\ h_cl r1 = h_cl r /\ contentLen r1 = CL)
+    by (repeat split).
+  destruct F1 as (A1 & A2 & A3 & A4 & A5 & A6 & A7 & A8 & A9).
+  assert (Sr1 : stream r1 = stream r) by (unfold stream; now rewrite A1, A2, A3).
+  destruct (N.ltb_spec 0 CL) as [Hcl|Hcl].
+  - (* a length was declared: the head is encoded and moved out of the head buffer first *)
+    destruct (head_phase_stream r1 (len (c :: d'))) as (P1 & P2 & P3 & P4 & P5 & P6 & P7 & P8 & P9).
+    { rewrite A4, A2. intros Hf. apply Hu in Hf. apply Hf. }
+    { intros Hb. rewrite A3. destruct (headEncoded r) eqn:Eh.
+      - rewrite (eh_encoded r1) in Hb by (rewrite A4; exact Eh). rewrite A2 in Hb.
+        destruct (Hk Hcl eq_refl) as [K|K]; [contradiction|exact K].
+      - destruct (Hu eq_refl) as [_ Hbn]. now rewrite (Hbn Hcl). }
+    destruct (append_phase_stream CL (head_phase r1 (len (c :: d'))) (c :: d')) as (Q1 & Q2 & Q3 & Q4 & Q5 & Q6 & Q7 & Q8 & Q9).
+    { intros _. unfold nob. now rewrite P2. }
+    cbv zeta in *. assert (Hlt : (0 <? CL) = true) by (apply N.ltb_lt; exact Hcl). rewrite Hlt.
+    split; [|split; [|split; [|now rewrite Q3, P3]]].
+    + unfold IdInv, settled. rewrite Q3, Q4, Q5, Q6, P3, P4, P5, P6, A5, A6, A7. destruct Hs as [S1 S2].
+      repeat split; auto; try discriminate.
+      * unfold ecl. rewrite Q7, P7, A9. destruct (N.ltb_spec 0 CL); [reflexivity|lia].
+      * intros _ _. left. now rewrite Q2.
+    + intros [Eh|E0]; [|lia]. rewrite Q1, P1. rewrite (eh_encoded r1) by (rewrite A4; exact Eh). now rewrite Sr1.
+    + intros Eh _. exists (stream (encode_head r1)). now rewrite Q1, P1.
+  - (* no declared length: the body just accumulates *)
+    assert (CL = 0) by lia. subst CL.
+    destruct (append_phase_stream 0 r1 (c :: d')) as (Q1 & Q2 & Q3 & Q4 & Q5 & Q6 & Q7 & Q8 & Q9); [lia|].
+    cbv zeta in *. cbn [N.ltb N.compare].
+    split; [|split; [|split; [|now rewrite Q3, A4]]].
+    + unfold IdInv, settled. rewrite Q2, Q3, Q4, Q5, Q6, A2, A4, A5, A6, A7. destruct Hs as [S1 S2].
+      repeat split; auto; try lia.
+      * unfold ecl. rewrite Q7, Q8, A8. cbn [contentLen r1]. unfold ecl in He. cbn.
+        destruct (0 <? contentLen r) eqn:E; [apply N.ltb_lt in E; lia|exact He].
+      * apply Hu in H. apply H.
+      * unfold stream in Q1. destruct (Hu H) as ((_ & Ho & _) & _).
+        (* out unchanged by an append without flush when CL = 0 *)
+        unfold append_phase. cbv zeta. cbn [andb N.ltb]. destruct (bodybuf r1); cbn [fst set_written set_bufs out]; rewrite ?A1; exact Ho.
+      * apply Hu in H. apply H.
+    + intros _. now rewrite Q1, Sr1.
+    + intros _ Hf. lia.
+Qed.
+
+Lemma id_write_refused CL r c d' : IdInv CL r -> In WErrContentLength (snd (op_write r (c :: d'))) ->
+  IdInv CL (fst (op_write r (c :: d'))) /\ stream (fst (op_write r (c :: d'))) = stream r.
+Proof.
+  intros (Hs & Hc & He & Hu & Hk) Hin.
+  pose proof (op_write_identity r c d' Hs Hc) as W. cbv zeta in W. rewrite W in *. rewrite He in *.
+  destruct ((0 <? CL) && (CL <? bodyWritten r + len (c :: d'))) eqn:Eref.
+  - cbn [fst]. split; [|reflexivity]. apply andb_true_iff in Eref as [E1 _]. apply N.ltb_lt in E1.
+    unfold IdInv, settled. cbn [set_written set_hasbody chunkChecked code chunked headEncoded out buffer bodybuf].
+    destruct Hs. repeat split; auto.
+    + unfold ecl; cbn [set_written contentLen]. destruct (N.ltb_spec 0 CL); [reflexivity|lia].
+    + apply Hu in H1. apply H1.
+    + apply Hu in H1. apply H1.
+    + apply Hu in H1. apply H1.
+    + intros _. apply Hu; auto.
+  - exfalso. revert Hin. unfold append_phase. cbv zeta.
+    repeat match goal with |- context[if ?c then _ else _] => destruct c | |- context[match ?x with Some _ => _ | None => _ end] => destruct x end;
+      cbn [snd]; intros [H|[]]; discriminate.
+Qed.
+
+Lemma id_flush CL r : IdInv CL r ->
+  let r' := op_flush r in
+  IdInv CL r' /\ headEncoded r' = true /\ stream r' = stream (encode_head r).
+Proof.
+  intros (Hs & Hc & He & Hu & Hk). unfold op_flush. fold (prep0 r). rewrite (prep0_settled r Hs).
+  destruct (eh_fields r) as (F1 & F2 & F3 & F4 & F5 & F6 & F7 & F8 & F9 & _).
+  set (e := encode_head r) in *.
+  assert (Base : settled e /\ chunked e = false /\ ecl e = CL).
+  { destruct Hs. unfold settled, ecl. rewrite F5, F6, F4, F7, F9. unfold ecl in He. auto. }
+  destruct Base as (B1 & B2 & B3).
+  destruct (buffer e) as [[|x b]|] eqn:Eb; destruct (bodybuf e) as [[|y bb]|] eqn:Ebb; cbv beta iota;
+    rewrite ?Eb, ?Ebb; cbn [set_bufs upd_out bodybuf buffer];
+    (split; [|split]);
+    try (unfold stream; cbn [set_bufs upd_out out buffer bodybuf]; rewrite ?concat_snoc, ?Eb, ?Ebb; cbn [ob app]; rewrite ?app_nil_r, <- ?app_assoc; reflexivity);
+    try exact F3;
+    try (unfold IdInv, settled, ecl in *; cbn [set_bufs upd_out chunkChecked code chunked contentLen h_cl headEncoded buffer bodybuf out];
+         destruct B1; repeat split; auto; try (rewrite F3; discriminate); try (intros; right; reflexivity); try (intros; left; assumption)).
+  all: try (intros _ _; rewrite ?Eb, ?Ebb; cbn [ob]; auto).
+Qed.
+
+Lemma id_finish CL r : IdInv CL r ->
+  let r' := op_finish r in
+  concat (out r') = stream (encode_head r) /\ ob (buffer r') = [] /\ ob (bodybuf r') = [].
+Proof.
+  intros (Hs & Hc & He & Hu & Hk). unfold op_finish. fold (prep0 r). rewrite (prep0_settled r Hs).
+  destruct (eh_fields r) as (F1 & F2 & F3 & F4 & _). rewrite F4, Hc. cbn [negb].
+  set (e := encode_head r) in *.
+  destruct (buffer e) as [h|] eqn:Eb; destruct (bodybuf e) as [[|y bb]|] eqn:Ebb; cbv beta iota;
+    try destruct (MAXP <? len h + len (y :: bb));
+    unfold stream; cbn [set_bufs upd_out out buffer bodybuf]; rewrite ?concat_snoc, ?Eb, ?Ebb; cbn [ob app];
+    rewrite ?app_nil_r, <- ?app_assoc; repeat split; auto.
+Qed.
+
+Lemma unstarted_stream r : Unstarted r -> stream r = ob (bodybuf r).
+Proof. intros (_ & Ho & Hb). unfold stream. now rewrite Ho, Hb. Qed.
+
+(* identity framing: the wire is the head followed by exactly the bytes of the accepted Writes, in order *)
+Lemma identity_wire CL body : forall r acc, IdInv CL r -> forallb is_wf_op body = true -> ok_run r body ->
+  let rf := op_finish (fst (run_prog r body acc)) in
+  (headEncoded r = true -> concat (out rf) = stream r ++ body_data body) /\
+  (headEncoded r = false -> exists H, concat (out rf) = H ++ ob (bodybuf r) ++ body_data body) /\
+  ob (buffer rf) = [] /\ ob (bodybuf rf) = [].
+Proof.
+  induction body as [|o body IH]; intros r acc Hi Hb Hok.
+  - cbn [run_prog fst body_data]. destruct (id_finish CL r Hi) as (F & B1 & B2). cbv zeta in *.
+    rewrite !app_nil_r. repeat split; auto.
+    + intros He. rewrite F. now rewrite (eh_encoded r He).
+    + intros He. destruct Hi as (_ & _ & _ & Hu & _). destruct (Hu He) as [(_ & Ho & Hbuf) _].
+      destruct (eh_fresh r He) as [h Eh]. destruct (eh_fields r) as (F1 & F2 & _).
+      exists h. rewrite F. unfold stream. now rewrite F1, Ho, Eh, F2.
+  - cbn [forallb] in Hb. apply andb_true_iff in Hb as [Ho Hb]. cbn [ok_run] in Hok. destruct Hok as [Hok1 Hok].
+    cbn [run_prog]. destruct o; try discriminate; cbn [run_op] in *.
+    + (* HWrite *)
+      destruct d as [|c d'].
+      * cbn [op_write fst snd body_data app] in *. apply IH; auto.
+      * destruct (op_write r (c :: d')) as [r1 w] eqn:E. cbn [fst snd] in *.
+        pose proof (id_write CL r c d' Hi) as W. cbn [run_op] in W. rewrite E in W. cbn [fst snd] in W.
+        destruct (W Hok1) as (Hi1 & S1 & S2 & He1).
+        destruct (IH r1 (acc ++ [w]) Hi1 Hb Hok) as (I1 & I2 & I3 & I4). cbv zeta in *.
+        cbn [body_data]. repeat split; auto.
+        -- intros He. rewrite He in He1.
+           assert (headEncoded r1 = true) by (rewrite He1; destruct (0 <? CL); reflexivity).
+           rewrite (I1 H), (S1 (or_introl He)). now rewrite <- app_assoc.
+        -- intros He. destruct (N.ltb_spec 0 CL) as [Hcl|Hcl].
+           ++ destruct (S2 He Hcl) as [H SH]. assert (E1 : headEncoded r1 = true) by (rewrite He1; reflexivity).
+              destruct Hi as (_ & _ & _ & Hu & _). destruct (Hu He) as [_ Hbn]. rewrite (Hbn Hcl). cbn [ob app].
+              exists H. rewrite (I1 E1), SH. now rewrite <- app_assoc.
+           ++ assert (CL = 0) by lia. subst CL. rewrite He in He1. cbn in He1.
+              destruct (I2 He1) as [H SH]. exists H. rewrite SH.
+              assert (Sr : stream r1 = stream r ++ c :: d') by (apply S1; right; reflexivity).
+              destruct Hi as (_ & _ & _ & Hu & _). destruct Hi1 as (_ & _ & _ & Hu1 & _).
+              rewrite (unstarted_stream r (proj1 (Hu He))), (unstarted_stream r1 (proj1 (Hu1 He1))) in Sr.
+              rewrite Sr. now rewrite <- app_assoc.
+    + (* HFlush *)
+      cbn [fst snd body_data] in *. destruct (id_flush CL r Hi) as (Hi1 & He1 & S1). cbv zeta in *.
+      destruct (IH (op_flush r) (acc ++ []) Hi1 Hb Hok) as (I1 & I2 & I3 & I4). cbv zeta in *.
+      repeat split; auto.
+      * intros He. rewrite (I1 He1), S1. now rewrite (eh_encoded r He).
+      * intros He. destruct Hi as (_ & _ & _ & Hu & _). destruct (Hu He) as [(_ & Hout & Hbuf) _].
+        destruct (eh_fresh r He) as [h Eh]. destruct (eh_fields r) as (F1 & F2 & _).
+        exists h. rewrite (I1 He1), S1. unfold stream. rewrite F1, Hout, Eh, F2. cbn [app ob]. now rewrite <- app_assoc.
+Qed.
+
+(* ---- the first body operation settles the framing: starting from r or from prep0 r is the same ---- *)
+Lemma prep0_idem r : prep0 (prep0 r) = prep0 r.
+Proof. apply prep0_settled, prep0_is_settled. Qed.
+
+Lemma op_write_prep r d : d <> [] -> op_write (prep0 r) d = op_write r d.
+Proof. intros Hd. unfold op_write. destruct d; [congruence|]. fold (prep0 (prep0 r)). fold (prep0 r). now rewrite prep0_idem. Qed.
+Lemma op_flush_prep r : op_flush (prep0 r) = op_flush r.
+Proof. unfold op_flush. fold (prep0 (prep0 r)). fold (prep0 r). now rewrite prep0_idem. Qed.
+Lemma op_finish_prep r : op_finish (prep0 r) = op_finish r.
+Proof. unfold op_finish. fold (prep0 (prep0 r)). fold (prep0 r). now rewrite prep0_idem. Qed.
+
+Lemma finish_run_prep body : forall r acc, forallb is_wf_op body = true ->
+  op_finish (fst (run_prog (prep0 r) body acc)) = op_finish (fst (run_prog r body acc)).
+Proof.
+  induction body as [|o body IH]; intros r acc Hb; cbn [run_prog fst].
+  - apply op_finish_prep.
+  - cbn [forallb] in Hb. apply andb_true_iff in Hb as [Ho Hb]. destruct o; try discriminate; cbn [run_op].
+    + destruct d as [|c d'].
+      * cbn [op_write]. apply IH, Hb.
+      * rewrite op_write_prep by discriminate. reflexivity.
+    + rewrite op_flush_prep. reflexivity.
+Qed.
+
+Theorem identity_wire_from_fresh CL r body acc :
+  NotStarted r -> chunked (prep0 r) = false -> ecl (prep0 r) = CL ->
+  forallb is_wf_op body = true -> ok_run (prep0 r) body ->
+  let rf := op_finish (fst (run_prog r body acc)) in
+  exists H, concat (out rf) = H ++ body_data body /\ ob (buffer rf) = [] /\ ob (bodybuf rf) = [].
+Proof.
+  intros (He & Ho & Hb & Hbb) Hc Hcl Hw Hok. cbv zeta. rewrite <- (finish_run_prep body r acc Hw).
+  destruct (prep0_bufs r) as (A & B & C & D & _).
+  assert (Hi : IdInv CL (prep0 r)).
+  { unfold IdInv. split; [apply prep0_is_settled|]. repeat split; auto; try congruence.
+    intros _ Hx. congruence. }
+  destruct (identity_wire CL body (prep0 r) acc Hi Hw Hok) as (_ & I2 & I3 & I4). cbv zeta in *.
+  destruct I2 as [H SH]; [congruence|]. exists H. rewrite SH, C, Hbb. cbn [ob app]. auto.
+Qed.
+
+(* ---- header operations do not start the response ---- *)
+Definition is_header_op (o : hop) : bool :=
+  match o with HSetCL _ | HCustom _ _ | HDeclTrailer _ | HSetTrailer _ _ | HWriteHeader _ _ => true | _ => false end.
+
+Lemma header_ops_notstarted pre : forall r acc, NotStarted r -> forallb is_header_op pre = true ->
+  NotStarted (fst (run_prog r pre acc)).
+Proof.
+  induction pre as [|o pre IH]; intros r acc Hn Hp; cbn [run_prog fst]; auto.
+  cbn [forallb] in Hp. apply andb_true_iff in Hp as [Ho Hp].
+  destruct o; try discriminate; cbn [run_op]; apply IH; auto.
+  all: try (destruct Hn as (A & B & C & D); repeat split; auto).
+  destruct (wh_bufs r c t) as (W1 & W2 & W3 & W4 & _). destruct Hn as (A & B & C & D). repeat split; congruence.
+Qed.
+
+Lemma new_resp_notstarted q : NotStarted (new_resp q).
+Proof. repeat split. Qed.
+
+(* ---- the recorded finding D9, on the model: HTTP/1.0, no Content-Length, Flush before the last Write ---- *)
+Fixpoint has_sub (pat l : list N) : bool :=
+  match l with
+  | [] => beq pat []
+  | _ :: t => beq pat (firstn (length pat) l) || has_sub pat t
+  end.
+
+Definition d9_wire : list N :=
+  concat (out (fst (run_prog (new_resp {| proto := [72;84;84;80;47;49;46;48]; minor11 := false; rclose := true |})
+                       [HWrite [97]; HFlush; HWrite [98]; HFinish] []))).
